@@ -38,6 +38,7 @@ type Env struct {
 	empty  *engine.StorageEngine
 	putSt  *putStore
 	aclSvc aclsvc.Service
+	remote *remoteNode
 }
 
 // NewEnv builds the universe, stores its objects into a fresh engine under dir
@@ -73,7 +74,11 @@ func NewEnv(dir string) (*Env, error) {
 
 	nodeKey := u.Node.Priv
 	keyStorage := objutil.NewKeyStorage(&nodeKey, noSessions{}, ch)
-	cl := clients{log: log}
+	remote, err := newRemoteNode(log, u)
+	if err != nil {
+		return nil, fmt.Errorf("start fake remote node: %w", err)
+	}
+	cl := clients{log: log, remote: remote}
 
 	get := getsvc.New(ch,
 		getsvc.WithLogger(zap.NewNop()),
@@ -114,7 +119,7 @@ func NewEnv(dir string) (*Env, error) {
 	st := storage{log: log, u: u}
 	ext := extractor{log: log, svc: aclSvc}
 
-	e := &Env{U: u, Log: log, chain: ch, data: data, empty: empty, putSt: putSt, aclSvc: aclSvc}
+	e := &Env{U: u, Log: log, chain: ch, data: data, empty: empty, putSt: putSt, aclSvc: aclSvc, remote: remote}
 	e.Server = objectsvc.New(hs, ch, st, nil, nodeKey, srvMetrics{}, mkChecker(data), ext, cl, zap.NewNop())
 	e.ServerLate = objectsvc.New(hs, ch, st, nil, nodeKey, srvMetrics{}, mkChecker(empty), ext, cl, zap.NewNop())
 	log.Reset()
@@ -129,6 +134,7 @@ func (e *Env) ResetCaches() { e.aclSvc.ResetTokenCheckCache() }
 
 // Close releases the engines.
 func (e *Env) Close() {
+	e.remote.close()
 	_ = e.data.Close()
 	_ = e.empty.Close()
 }
